@@ -95,7 +95,7 @@ CHECKS = {
             "checker validates the tables python-pest's optimizer ACTUALLY produced for every generated grammar (default "
             "pipeline, each single pass, seeded permutations / subsets / repetitions: ~4000 tables per quick run, all "
             "accepted on the current tree; it rejects the outputs of the optimizer defects repaired earlier), and O vs I / "
-            "OG vs IG are compared on all cases (the source of replays). Two of the five passes are also MODELLED (OptPass.v: "
+            "OG vs IG are compared on all cases (the source of replays). Four of the five passes are also MODELLED and three of them PROVED: two (OptPass.v: "
             "Expression.map_bottom_up / map_top_down, the per-rule step of Optimizer.optimize, unroller.unroll, "
             "inliners.inline_builtin) and PROVED for every grammar to produce only tables the validator accepts "
             "(C02_unroll_pass_preserves_meaning, C02_inline_builtin_pass_preserves_meaning, and C02_modelled_passes_compose: any "
@@ -105,8 +105,10 @@ CHECKS = {
             "identical to the table the extracted model computes (~12000 comparisons per quick run). C02_unroll_pass_idempotent. "
             "The in-place passes `inline silent` (with the _refers_to cycle check) and `skip` (with _skip and "
             "never_skips_trivia) are modelled too (OptPassSilent.v, OptPassSkip.v) and tied exactly, alone and in short "
-            "sequences (~44000 table comparisons per quick run), but NOT proved; squash_choice is not modelled; for these "
-            "three the property rests on the validation of the real output; "
+            "sequences (~45000 table comparisons per quick run). `inline silent` is PROVED for every grammar "
+            "(C02_inline_silent_pass_preserves_meaning: invariant over the in-place fold, using that the validator is "
+            "monotone in its fuel, C02_validator_monotone_in_fuel); `skip` is NOT proved and squash_choice is not "
+            "modelled: for these two the property rests on the validation of the real output; "
             "the exporter reads the compiled regex text of an OptimizedChoice and maps it to terminals (trusted). The fused SKIP rule is "
             "validated too (OptSkip.ochk_skip; C02_fused_skip_rule_is_implicit_skipping: one call of SKIP = pest's implicit "
             "skipping of the original grammar); that the optimised parsers call SKIP at the places where the reference "
